@@ -39,6 +39,13 @@ type helloPingState struct {
 
 var _ PingHandler = &HelloPingHandler{}
 
+// closedNotify is returned by Send when there is nothing to wait for.
+var closedNotify = func() <-chan struct{} {
+	c := make(chan struct{})
+	close(c)
+	return c
+}()
+
 // NewHelloPingHandler returns a new hello ping handler.
 func NewHelloPingHandler(r *Router) *HelloPingHandler {
 	return &HelloPingHandler{
@@ -114,6 +121,15 @@ func (h *HelloPingHandler) Send(dstIP netip.Addr) (notify <-chan struct{}, err e
 	if pingState := h.getActive(dstIP); pingState != nil {
 		return pingState.notify, ErrAlreadyActive
 	}
+
+	// Check if encryption was set up since the caller looked, eg. because a
+	// hello request of the remote router was served in the meantime.
+	// Starting another key setup now would make the remote router replace
+	// working keys - and if its response is lost, both sides keep different keys.
+	if session := h.r.instance.State().GetSession(dstIP); session != nil && session.Encryption().IsSetUp() {
+		return closedNotify, nil
+	}
+
 	pingState := &helloPingState{
 		pingID: newPingID(),
 		notify: make(chan struct{}),
@@ -174,6 +190,12 @@ func (h *HelloPingHandler) handlePingHelloRequest(w *mgr.WorkerCtx, f frame.Fram
 	if err := cbor.Unmarshal(data, &request); err != nil {
 		return fmt.Errorf("unmarshal request: %w", err)
 	}
+
+	// Serving a request and starting an own key setup (see Send) must not
+	// interleave: Either the request is served first and Send then finds
+	// encryption set up, or the own setup is registered first and is seen here.
+	h.sendLock.Lock()
+	defer h.sendLock.Unlock()
 
 	// Resolve simultaneous hello pings.
 	// If both routers start a key setup with each other at the same time, both
